@@ -123,8 +123,11 @@ type SimStore struct {
 	mfg      map[keyID]*KeyEntry
 	// FailNext[method] = n makes the next n calls of method return ErrInjected.
 	FailNext map[string]int
-	Fired    map[string]int
-	yield    func(site string)
+	// FailAt[method] = j fails exactly the j-th call (1-based) of method.
+	FailAt map[string]int
+	Calls  map[string]int
+	Fired  map[string]int
+	yield  func(site string)
 }
 
 // ErrInjected is returned by a store method hit by an injected disk error.
@@ -140,6 +143,8 @@ func NewSimStore(node string, j *Journal) *SimStore {
 		owner:    map[keyID]*KeyEntry{},
 		mfg:      map[keyID]*KeyEntry{},
 		FailNext: map[string]int{},
+		FailAt:   map[string]int{},
+		Calls:    map[string]int{},
 		Fired:    map[string]int{},
 	}
 }
@@ -179,6 +184,11 @@ func (s *SimStore) enter(method string) error {
 	}
 	s.mu.Lock()
 	defer s.mu.Unlock()
+	s.Calls[method]++
+	if j := s.FailAt[method]; j > 0 && s.Calls[method] == j {
+		s.Fired[method]++
+		return fmt.Errorf("%w (%s call %d)", ErrInjected, method, j)
+	}
 	if n := s.FailNext[method]; n > 0 {
 		s.FailNext[method] = n - 1
 		s.Fired[method]++
